@@ -10,8 +10,10 @@ import (
 	mrand "math/rand"
 	"os"
 	"runtime"
+	"strconv"
 	"strings"
 	"sync"
+	"time"
 
 	fdo "github.com/fido-device-onboard/go-fdo"
 	"github.com/fido-device-onboard/go-fdo/cbor"
@@ -216,6 +218,36 @@ func (wk *sysWorker) close() {
 
 func isEnc(t uint8) bool { return t >= 65 && t <= 71 }
 
+// RunDeadline is the watchdog for one TO2 run.
+var RunDeadline = 90 * time.Second
+
+func init() {
+	// self-test switch: a tiny deadline makes every run a "hang"
+	if ms, err := strconv.Atoi(os.Getenv("VERIF_RUN_DEADLINE_MS")); err == nil && ms > 0 {
+		RunDeadline = time.Duration(ms) * time.Millisecond
+	}
+}
+
+// libStacks returns the stacks of all goroutines that are inside go-fdo code (for hang reports).
+func libStacks() string {
+	buf := make([]byte, 4<<20)
+	buf = buf[:runtime.Stack(buf, true)]
+	var out []string
+	for _, g := range strings.Split(string(buf), "\n\n") {
+		if strings.Contains(g, "fido-device-onboard/go-fdo") && !strings.Contains(g, "exchangeServiceInfo.func1") &&
+			(strings.Contains(g, "[running]") || strings.Contains(g, "[runnable]") || strings.Contains(g, "[chan") || strings.Contains(g, "[select") || strings.Contains(g, "[sync") || strings.Contains(g, "[semacquire")) {
+			if len(g) > 1500 {
+				g = g[:1500]
+			}
+			out = append(out, g)
+		}
+		if len(out) >= 12 {
+			break
+		}
+	}
+	return strings.Join(out, "\n\n")
+}
+
 // execute performs one run and returns its events.
 func (wk *sysWorker) execute(r SysRun) (evs []Event) {
 	base := func(ev string) Event { return Event{"ev": ev, "run": r.ID} }
@@ -233,7 +265,40 @@ func (wk *sysWorker) execute(r SysRun) (evs []Event) {
 			wk.ref[refKey][fmt.Sprintf("%d/%d", m.typ, occ)] = append([]byte(nil), m.orig...)
 		})
 	}
-	msgs, j, runErr, devPanic, srvPanics, herr := wk.execRun(r, w, d, nil)
+	type outcome struct {
+		msgs      []*wireMsg
+		j         *journal
+		runErr    error
+		devPanic  string
+		srvPanics []string
+		herr      string
+	}
+	done := make(chan outcome, 1)
+	go func() {
+		var o outcome
+		o.msgs, o.j, o.runErr, o.devPanic, o.srvPanics, o.herr = wk.execRun(r, w, d, nil)
+		done <- o
+	}()
+	var o outcome
+	select {
+	case o = <-done:
+	case <-time.After(RunDeadline):
+		// watchdog: an honest run takes well under a second; the run is abandoned (its goroutines
+		// leak) and the worker continues on a fresh world
+		e := base("hang")
+		e["class"], e["type"], e["after_s"] = r.Class, r.Type, RunDeadline.Seconds()
+		e["stacks"] = libStacks()
+		evs = append(evs, e)
+		end := base("end")
+		end["failed"] = true
+		evs = append(evs, end)
+		info := base("info")
+		info["messages"], info["mutated"], info["markers_in_plaintext"], info["leaks"], info["hang"] = 0, true, 0, 0, true
+		evs = append(evs, info)
+		wk.worlds, wk.devs = map[world.KeyKind]*world.World{}, map[world.KeyKind]*world.Device{}
+		return evs
+	}
+	msgs, j, runErr, devPanic, srvPanics, herr := o.msgs, o.j, o.runErr, o.devPanic, o.srvPanics, o.herr
 	if herr != "" {
 		return append(evs, Event{"ev": "harness_error", "run": r.ID, "err": herr})
 	}
